@@ -90,6 +90,8 @@ StateOK(o) ==
   /\ Set(o.st.routes) = Dom(aabs)
   /\ {<<o.st.named[i][1], o.st.named[i][2]>> : i \in 1..Len(o.st.named)} = {<<n, anamed[n]>> : n \in Dom(anamed)}
   /\ Set(o.st.hooks) = ahooks
+  \* lookup by rule: every surviving route is found under each spelling it was registered with, nothing else is
+  /\ Set(o.st.byrule) = Dom(aabs) /\ o.st.byrule_miss = <<>>
 Outcomes == {"ok", "rejected:method", "rejected:name", "rejected:filter", "rejected:key"}
 PropFailsAt(o) ==
   (IF o.outcome \notin Outcomes THEN {"Outcome"} ELSE {}) \cup
